@@ -57,7 +57,10 @@ def check(model: Model, report: Report) -> None:
     # R16.4
     for q in ("parse.Parser", "environment.JSONPathEnvironment"):
         ci = model.cls(q)
-        late = [w for w in sites if w.fn.cls is ci and w.cls not in ("init", "fresh", "exception")]
+        late = [w for w in sites if w.fn.cls is ci and w.cls not in ("init", "fresh", "exception", "memo")]
+        memo = [w for w in sites if w.fn.cls is ci and w.cls == "memo"]
+        if memo:
+            report.ok("R16.4", q, "key-determined memo entries: single dict operations, atomic under the GIL (A1); a lost update only repeats a computation", detail={"sites": [w.key() for w in memo]})
         if late:
             for w in late:
                 report.fail("R16.4", w.fn.qualname, f"shared-write:{w.key()}", f"{q} is shared by every compile()/find(); it is written in {w.fn.name}", file=w.fn.file, line=w.line)
